@@ -10,9 +10,10 @@ pathname expansion) against `Spec/Glob.lean` (the POSIX/bash whole-string matchi
 Quantifiers: every pattern (any nesting), every subject string, extglob / nocasematch / dotglob on
 and off.
 
-The code violates the full statement in four independent ways, each with a proved counter-example
-(`anchor_cex`, `not_group_cex`, `bracket_leading_rbracket_cex`, `nocase_class_cex`); the proved
-`_partial` theorems carry the corresponding decidable guards.
+The code violates the full statement in three independent ways, each with a proved counter-example
+(`not_group_cex`, `bracket_leading_rbracket_cex`, `nocase_class_cex`); the proved `_partial`
+theorems carry the corresponding decidable guards. (A fourth, line anchoring under `(?ms)`, was
+repaired in `compile_regex`; `exact_match_is_whole_string` now holds for every subject.)
 -/
 namespace BrushVerif.C08
 open BrushVerif.Wire BrushVerif.Pattern BrushVerif.Glob
@@ -230,70 +231,46 @@ theorem full_match_correct_partial (nc : Bool) (p : Pat) (hb : p.hasBang = false
 
 /-! ## anchoring: a match must cover the whole string, not one line of it -/
 
-private theorem lineSearch_false (nc : Bool) (re : Re) :
-    ∀ s : Str, '\n' ∉ s → lineSearch nc re false s = false := by
+private theorem anchoredSearch_false (nc : Bool) (re : Re) :
+    ∀ s : Str, anchoredSearch nc re false s = false := by
   intro s
   induction s with
-  | nil => intro _; simp [lineSearch]
-  | cons c t ih =>
-    intro h
-    have hc : c ≠ '\n' := fun e => h (by simp [e])
-    have ht : '\n' ∉ t := fun e => h (List.mem_cons_of_mem _ e)
-    simp [lineSearch, hc, ih ht]
+  | nil => simp [anchoredSearch]
+  | cons c t ih => simp [anchoredSearch, ih]
 
-private theorem atLineEnd_of_suffix (s r : Str) (hs : '\n' ∉ s) (hr : r <:+ s) :
-    atLineEnd r = r.isEmpty := by
-  cases r with
-  | nil => rfl
-  | cons c t =>
-    have : c ∈ s := hr.subset (List.mem_cons_self ..)
-    have hc : c ≠ '\n' := fun e => hs (e ▸ this)
-    simp [atLineEnd, hc]
-
-/-- full statement: what brush computes for `case`/`[[ == ]]`/`${v#p}` (regex `(?ms)^…$`, searched
-anywhere) is whole-string matching by the emitted regex -/
-def exact_match_is_whole_string_full : Prop :=
-  ∀ (nc : Bool) (re : Re) (s : Str), lineSearch nc re true s = re.full nc s
-
-/-- `case $'x\nabc' in abc)` matches in brush: `^`/`$` are line anchors under `(?m)` -/
-theorem anchor_cex : ¬ exact_match_is_whole_string_full := by
-  intro h
-  have := h false (.seq (.chr 'a') (.seq (.chr 'b') (.chr 'c'))) "x\nabc".toList
-  revert this
-  decide +kernel
-
-/-- … and it is whole-string matching whenever the subject has no newline. -/
-theorem exact_match_is_whole_string_partial (nc : Bool) (re : Re) (s : Str) (hs : '\n' ∉ s) :
-    lineSearch nc re true s = re.full nc s := by
-  have hany : ∀ t : Str, t <:+ s → (re.run nc t).any atLineEnd = (re.run nc t).any (·.isEmpty) := by
-    intro t ht
-    rw [Bool.eq_iff_iff, List.any_eq_true, List.any_eq_true]
-    constructor
-    · rintro ⟨r, hr, h⟩
-      exact ⟨r, hr, by rw [← atLineEnd_of_suffix s r hs ((run_suffix nc re t r hr).trans ht)]; exact h⟩
-    · rintro ⟨r, hr, h⟩
-      exact ⟨r, hr, by rw [atLineEnd_of_suffix s r hs ((run_suffix nc re t r hr).trans ht)]; exact h⟩
+/-- What brush computes for `case` / `[[ == ]]` / `${v#p}` / pathname components — the regex
+`(?s)^…$` searched at every offset of the subject — is whole-string matching by the emitted regex,
+for **every** subject (newlines included) and every regex of the emitted subset: no later start
+offset can contribute, and only an empty remainder satisfies `$`. (Before the repair of
+`compile_regex` the flags were `(?ms)` and this failed on `abc` / `x\nabc`.) -/
+theorem exact_match_is_whole_string (nc : Bool) (re : Re) (s : Str) :
+    anchoredSearch nc re true s = re.full nc s := by
   cases s with
-  | nil => simp [lineSearch, Re.full, hany [] (List.suffix_refl _)]
-  | cons c t =>
-    have hc : c ≠ '\n' := fun e => hs (by simp [e])
-    have ht : '\n' ∉ t := fun e => hs (List.mem_cons_of_mem _ e)
-    simp [lineSearch, Re.full, hany (c :: t) (List.suffix_refl _), hc, lineSearch_false nc re t ht]
+  | nil => simp [anchoredSearch, Re.full]
+  | cons c t => simp [anchoredSearch, Re.full, anchoredSearch_false]
 
-example : '\n' ∉ "a b*".toList := by decide +kernel
+/-- the former counter-example, now a positive fact: `case $'x\nabc' in abc)` does not match, while
+`?` and `*` still match a newline -/
+theorem line_of_subject_does_not_match :
+    exactlyMatches false false "abc".toList "x\nabc".toList = false ∧
+    exactlyMatches false false "abc".toList "abc\n".toList = false ∧
+    exactlyMatches false false "x?abc".toList "x\nabc".toList = true ∧
+    exactlyMatches false false "*c".toList "x\nabc".toList = true ∧
+    exactlyMatches false false "[!a]".toList "\n".toList = true := by
+  decide +kernel
 
 /-- End to end for one pattern text: brush's `Pattern::exactly_matches` (parse, translate, anchor,
 search) agrees with the POSIX relation on the parsed pattern — for every text whose parse has no
-`!(…)`, every subject without a newline, nocasematch only without named classes. -/
+`!(…)`, every subject (any characters, newlines included), nocasematch only without named classes. -/
 theorem exactly_matches_correct_partial (ext nc : Bool) (p s : Str)
-    (hb : (parsePat ext p).hasBang = false) (hc : ClsOk nc (parsePat ext p)) (hs : '\n' ∉ s) :
+    (hb : (parsePat ext p).hasBang = false) (hc : ClsOk nc (parsePat ext p)) :
     exactlyMatches ext nc p s = true ↔ Matches nc (parsePat ext p) s := by
   unfold exactlyMatches
-  rw [exact_match_is_whole_string_partial nc _ s hs]
+  rw [exact_match_is_whole_string nc _ s]
   exact full_match_correct_partial nc _ hb hc s
 
 example : (parsePat true "+(a|b)?".toList).hasBang = false ∧ ClsOk false (parsePat true "+(a|b)?".toList) ∧
-    '\n' ∉ "abx".toList ∧ exactlyMatches true false "+(a|b)?".toList "abx".toList = true := by decide +kernel
+    exactlyMatches true false "+(a|b)?".toList "ab\n".toList = true := by decide +kernel
 
 /-! ## the three other defects -/
 
